@@ -10,7 +10,9 @@ from vflib.core import Broken, finish, validate_trace, binding_selftest
 
 INPUTS = [("VfYoung.mfront", "c"), ("VfMP.mfront", "generic"), ("VfProbe.mfront", "generic"), ("VfMPLog.mfront", "c"),
           # the octave interface registers a specific target whose command contains double quotes (escaped in the file)
-          ("VfYoung.mfront", "octave")]
+          ("VfYoung.mfront", "octave"),
+          # a behaviour that imports a material law: its library depends on an auxiliary library (field deps)
+          ("VfUsesLaw.mfront", "generic")]
 STR = r'"((?:[^"\\]|\\.)*)"'     # a string of targets.lst, escaped quotes included
 
 
@@ -28,10 +30,14 @@ def parse_registry(path):
         if not n:
             return "partial", []
         items.append("lib:" + n.group(1))
-        for key, tag in (("sources", "src"), ("epts", "ept")):
-            k = re.search(key + r"\s*:\s*\{(.*?)\}", blk, re.S)
-            if k:
-                items += ["%s:%s:%s" % (tag, n.group(1), x) for x in re.findall(STR, k.group(1))]
+        # every list of the block (sources, cppflags, include_directories, link_directories, link_libraries, epts, deps, ...)
+        for k in re.finditer(r"(\w+)\s*:\s*\{(.*?)\}", blk, re.S):
+            tag = {"sources": "src", "epts": "ept"}.get(k.group(1), k.group(1))
+            items += ["%s:%s:%s" % (tag, n.group(1), x) for x in re.findall(STR, k.group(2))]
+        # ... and every scalar field (type, prefix, suffix, install_path)
+        for k in re.finditer(r"^(\w+)\s*:\s*([^{\n;]+);", blk, re.M):
+            if k.group(1) != "name":
+                items.append("fld:%s:%s=%s" % (n.group(1), k.group(1), k.group(2).strip()))
     # specific targets: name, commands (text as written, escapes included), sources, dependencies
     for m in re.finditer(r"target\s*:\s*\{(.*?)\n\};", txt, re.S):
         blk = m.group(1)
@@ -51,7 +57,7 @@ def parse_registry(path):
 
 def prepare_inputs(ctx, d):
     os.makedirs(d, exist_ok=True)
-    for f in ("VfMP.mfront", "VfMPLog.mfront"):
+    for f in ("VfMP.mfront", "VfMPLog.mfront", "VfUsesLaw.mfront"):
         shutil.copy(os.path.join(core.HARNESS, "mfront", f), d)
     shutil.copy(os.path.join(core.HARNESS, "data", "VfYoung.mfront"), d)
     mfrontlib.instantiate(os.path.join(core.HARNESS, "mfront/VfProbe.mfront"), os.path.join(d, "VfProbe.mfront"), {"SUFFIX": "", "STRAINMEASURE": ""})
@@ -60,7 +66,7 @@ def prepare_inputs(ctx, d):
 def mfront_run(ctx, d, inp, iface, inject=None):
     """returns (rc, crashed, reported)"""
     exe = os.path.join(core.BUILD, "mfront/src/mfront")
-    argv = [exe, "--interface=" + iface, os.path.join("..", "inputs", inp)]
+    argv = [exe, "--search-path=" + os.path.join("..", "inputs"), "--interface=" + iface, os.path.join("..", "inputs", inp)]
     sem = "/vf-c47-%d" % os.getpid()
     if inject:
         argv = ["strace", "-f", "-o", "/dev/null", "-P", "src/targets.lst", "-e", "trace=openat,write,close",
@@ -97,12 +103,14 @@ def run(ctx):
         desc[(inp, iface)] = items
     # ---- histories ----
     hists = []
-    A, B, C, D, E = INPUTS
+    A, B, C, D, E, F = INPUTS
     # clean accumulation, repetition (write then re-read is the identity), permutation
     hists.append([(A, None), (B, None), (C, None), (A, None), (D, None)])
     hists.append([(C, None), (C, None), (B, None)])
     # entries with quoted text must survive being read back and written again, several times
     hists.append([(E, None), (B, None), (B, None), (E, None), (A, None)])
+    # the dependencies between libraries must survive later runs
+    hists.append([(F, None), (C, None), (A, None), (F, None)])
     # crash of the second run at every system call on the registry, then a clean run
     points = [(s, n) for s in ("openat", "write", "close") for n in (1, 2, 3)]
     for p in points:
